@@ -24,6 +24,7 @@ RC=$?
 ORACLES=$(grep -E "violated oracle" "$OUT" | sed -E 's/.*violated oracle=([^ ]+) facet=([^:]+):.*/\2:\1/' | sort -u | head -8 | tr '\n' ' ')
 HERR=$(grep -c "HARNESS-ERROR" "$OUT")
 echo "{\"property\": \"$PROP\", \"demo_unpatched_exit\": $D0, \"demo_patched_exit\": $D1, \"pinned_suite\": \"$PIN\", \"check_exit\": $RC, \"harness_errors\": $HERR, \"oracles\": \"$ORACLES\"}"
-# drop replay files written by the mutant run
-find /verif/replay/"$PROP" -type f ! -name 'known-*' ! -name 'fixed-*' -newer "$OUT" -delete 2>/dev/null
+# the shrunk failing inputs of the patched run become regression-corpus entries (replayed by every later run)
+mkdir -p /verif/corpus/"$PROP"
+find /verif/replay/"$PROP" -type f ! -name 'known-*' ! -name 'fixed-*' -newer "$OUT" -exec mv {} /verif/corpus/"$PROP"/ \; 2>/dev/null
 rm -f "$OUT"
